@@ -824,10 +824,12 @@ def c14(ck):
     binary = vlib.build_harness()
     ck.add_tlc(vlib.mc("MC_IoSink", "MC_IoSink_write_all.cfg", ck.scratch, workers=4))
     # the specification must tell the two writer designs apart: the single-write() design violates Safe
-    r = vlib.tlc("MC_IoSink", "MC_IoSink_single.cfg", ck.scratch, workers=1, timeout=300)
-    if r["ok"] or "Invariant Safe is violated" not in r["out"]:
-        raise ToolError("MC_IoSink_single: the specification does not reject the single-write design")
-    ck.extra["design_counterexample"] = "single write() per segment violates Safe (as expected)"
+    for design in ("single", "okinterrupt"):
+        r = vlib.tlc("MC_IoSink", f"MC_IoSink_{design}.cfg", ck.scratch, workers=1, timeout=300)
+        if r["ok"] or "Invariant Safe is violated" not in r["out"]:
+            raise ToolError(f"MC_IoSink_{design}: the specification does not refute this writer design")
+    ck.extra["design_counterexamples"] = ("a single write() per segment, and leaving the loop with Ok when the sink reports "
+                                          "Interrupted, each violate Safe (as expected)")
     # the same design for a canonical string of ANY length and any number of sink responses: an inductive invariant
     # discharged by Apalache (initiation, consecution, IndInv => Safe), and the single-write design refuted
     from concurrent.futures import ThreadPoolExecutor
@@ -992,10 +994,15 @@ def c11(ck):
     binary = vlib.build_harness()
     thorough = ck.tier == "thorough"
     ck.add_tlc(vlib.mc("MC_Determinism", "MC_Determinism_ordered.cfg", ck.scratch, workers=1))
-    r = vlib.tlc("MC_Determinism", "MC_Determinism_hashset.cfg", ck.scratch, workers=1, timeout=300)
-    if r["ok"] or "DetAction is violated" not in r["out"]:
-        raise ToolError("MC_Determinism_hashset: the specification does not reject hash-set iteration order")
-    ck.extra["design_counterexample"] = "emitting recommends in hash-set iteration order violates DetAction (as expected)"
+    # the specification must refute each defective design: iteration in hash-set order, directories in hand-over
+    # order, a zoned date-time read as wall-clock time, modification times recorded without clamping
+    for design, what in (("hashset", "DetAction is violated"), ("insertion", "DetAction is violated"),
+                         ("localtime", "ClampInv is violated"), ("rawmtime", "ClampInv is violated")):
+        r = vlib.tlc("MC_Determinism", f"MC_Determinism_{design}.cfg", ck.scratch, workers=1, timeout=300)
+        if r["ok"] or what not in r["out"]:
+            raise ToolError(f"MC_Determinism_{design}: the specification does not refute this design")
+    ck.extra["design_counterexamples"] = ("hash-set iteration order and hand-over order violate DetAction; wall-clock reading of "
+                                          "a zoned source date and unclamped mtimes violate ClampInv (as expected)")
     tr = ck.scratch / "c11.ndjson"
     vlib.run_harness(binary, ["c11", "--out", tr, "--seed", ck.seed, "--n", 600 if thorough else 24], timeout=6000)
     events = read_ndjson(tr)
@@ -1175,10 +1182,13 @@ def c12(ck):
     binary = vlib.build_harness()
     thorough = ck.tier == "thorough"
     ck.add_tlc(vlib.mc("MC_Extract", "MC_Extract_safe.cfg", ck.scratch, workers=8, timeout=1800))
-    r = vlib.tlc("MC_Extract", "MC_Extract_naive.cfg", ck.scratch, workers=1, timeout=600)
-    if r["ok"] or "ContainedInv is violated" not in r["out"]:
-        raise ToolError("MC_Extract_naive: the specification does not reject the naive extractor")
-    ck.extra["design_counterexample"] = "the naive extractor (join + create through links) violates Contained (as expected)"
+    for design in ("naive", "parentonly", "mkdirfirst"):
+        r = vlib.tlc("MC_Extract", f"MC_Extract_{design}.cfg", ck.scratch, workers=1, timeout=600)
+        if r["ok"] or "ContainedInv is violated" not in r["out"]:
+            raise ToolError(f"MC_Extract_{design}: the specification does not refute this extractor design")
+    ck.extra["design_counterexamples"] = ("the naive extractor (join + create through links), the one that checks only the "
+                                          "immediate parent for links, and the one that creates parents before refusing "
+                                          "each violate Contained within two entries (as expected)")
     cases = ck.scratch / "extract_cases.ndjson"
     ck.add_tlc(vlib.gen_cases("Gen_Extract", "Gen_Extract_thorough.cfg" if thorough else "Gen_Extract_quick.cfg", ck.scratch, cases, timeout=1800, xmx="6g"))
     def esc(e):
